@@ -200,7 +200,7 @@ def work(item):
                     except Exception as e:  # noqa: B902
                         ct = ('EXC', repr(e))
                     if ct != t:
-                        res.viol(ID, 'ascii-text-altered', 'stdnum.util', 'clean', {'kind': 'string', 's': t, 'd': ''},
+                        res.viol(ID, 'ascii-text-altered', 'stdnum.util', 'clean', {'kind': 'ascii', 's': t, 'd': ''},
                                  'clean(%r) = %r' % (t, ct), 'unchanged', excinfo='len%d' % len(t), devclass='seed', rank=[0, len(t), t])
         # further accepted presentations: the written seed with one character removed (short sections, dropped
         # leading zeros or separators) where validate() still accepts it
@@ -255,6 +255,16 @@ def replay(case):
     res = Result()
     if case['kind'] == 'char':
         check_char(res, chr(case['cp']))
+    elif case['kind'] == 'ascii':
+        from stdnum.util import clean
+        t = case['s']
+        try:
+            ct = clean(t, '')
+        except Exception as e:  # noqa: B902
+            ct = ('EXC', repr(e))
+        if ct != t:
+            res.viol(ID, 'ascii-text-altered', 'stdnum.util', 'clean', case, 'clean(%r) = %r' % (t, ct), 'unchanged',
+                     excinfo='len%d' % len(t), devclass='seed')
     elif case['kind'] == 'string':
         r = work(('strings', 0, 'quick'))
         from stdnum.util import clean
